@@ -185,9 +185,10 @@ func cmdCheck(args []string) {
 	if err := eng.LoadContracts(); err != nil {
 		engineFailure(*prop, *tier, seed, "ENGINE-CONTRACTS: "+err.Error(), t0)
 	}
+	eng.thorough = *tier == "thorough"
 	timeout := 20
 	if *tier == "thorough" {
-		timeout = 120
+		timeout = 300
 	}
 	run := eng.RunProperty(*prop, *tier, seed, timeout)
 	run.wall = time.Since(t0)
@@ -460,7 +461,7 @@ func (run *CheckRun) Report(e *Engine, writeBaseline, verbose bool) int {
 		}
 		var missing []string
 		for n := range base {
-			if !have[n] {
+			if !have[n] && !(run.Tier != "thorough" && strings.Contains(n, "#slow_")) {
 				missing = append(missing, n)
 			}
 		}
